@@ -220,7 +220,7 @@ func runHistory(bi int, steps []step, le *logrus.Entry, emit func(map[string]any
 		}
 	}
 	// wait until every Send on an incarnation that is up has returned (bounded), then a little longer for stragglers
-	deadline := time.Now().Add(6 * time.Second)
+	deadline := time.Now().Add(20 * time.Second)
 	for time.Now().Before(deadline) {
 		pending := false
 		for _, r := range sends {
@@ -273,7 +273,7 @@ func runHistory(bi int, steps []step, le *logrus.Entry, emit func(map[string]any
 		}
 		return true
 	}
-	for dl := time.Now().Add(6 * time.Second); time.Now().Before(dl) && !listenOK(); {
+	for dl := time.Now().Add(20 * time.Second); time.Now().Before(dl) && !listenOK(); {
 		time.Sleep(5 * time.Millisecond)
 	}
 	var lo []map[string]any
